@@ -185,6 +185,11 @@ def pong(): return ping()
 ping().q
 z = z.next
 z.w
+def mkbase(): return Selfish
+class Selfish(mkbase()):
+    own = 1
+Selfish.own
+Selfish().own
 ''',
     'odd-layout': '''if 1: a = 1; b = 2
 else: a = b = 3
